@@ -418,7 +418,7 @@ func init() {
 	fw.Register(&fw.Property{
 		ID:     "C19",
 		Run:    runC19,
-		Rule:   "seeded programs of 1-8 top-level forms (C01 generator with 10% faults; C12/C03 generator with macros and try) ending in (trace! result), each rendered in the plain layout plus 3 of 7 hostile layouts (comments with brackets/quotes between any two tokens, leading comment block, CRLF between tokens, no final newline, trailing comment with / without final newline / on the last line, blank lines) and delivered through 9 routes in fresh standard environments: do-wrapped text without and with module name, position-less AST built from Go, re-read of its own printed form, forms fed one by one to REPL with and without a module name, file loaded with load-file (library definition and bootstrap.lisp's definition); error class, thrown value, ordered trace (modulo gensym names) and, where defined, EVAL's return value must agree with the plain-text route; distinct = program skeletons",
+		Rule:   "seeded programs of 1-8 top-level forms (C01 generator with 10% faults; C12/C03 generator with macros and try) ending in (trace! result), each rendered in the plain layout plus 3 of 7 hostile layouts (comments with brackets/quotes between any two tokens, leading comment block, CRLF between tokens, no final newline, trailing comment with / without final newline / on the last line, blank lines) and delivered through 9 routes in fresh standard environments: do-wrapped text without and with module name, position-less AST built from Go, re-read of its own printed form, forms fed one by one to REPL with and without a module name, file loaded with load-file (library definition and bootstrap.lisp's definition); error class, thrown value, ordered trace (modulo gensym names) and, where defined, EVAL's return value must agree with the plain-text route; distinct = program skeletons; extras compare function values; the error text a program ends with (its own position prefix removed) must agree across routes",
 		Assume: []string{"line-ending changes are applied between tokens only", "load-file and the REPL route do not define EVAL's return value: the program's value is compared through the final trace!"},
 		Finish: func(m *fw.Merged) {
 			m.Floor("programs", 500)
